@@ -176,7 +176,15 @@ FailsCorpus(e) ==
             \o Chk(Len(e.delivered) # Len(cd.ds) \/ \A i \in 1..Len(cd.ds) : Rep(e.schema, cd.ds[i], e.delivered[i], FALSE, "r"), "delivered value is not what the reference decodes from the checked-in file")
        ELSE Chk(e.err # "", "a value that does not fit the Go field was accepted")
 
+\* records written by the harness's random legal writer: first the reference decoder must accept each
+\* completely (else the harness wrote something illegal: exit 2), then the reader is judged like FailsVec
+FailsRand(e) ==
+  LET ds == [i \in 1..Len(e.records) |-> Dec(e.schema, e.records[i], 1)] IN
+  IF \E i \in 1..Len(ds) : ~ds[i].ok \/ ds[i].pos # Len(e.records[i]) + 1 THEN <<"SPECBUG: the harness's random writer produced bytes the reference decoder does not accept">>
+  ELSE FailsVec([e EXCEPT !.op = "vec_read"] @@ [datums |-> [i \in 1..Len(ds) |-> ds[i].d]])
+
 Fails(e) == CASE e.op = "vec_read" -> FailsVec(e) \o FailsLefts(e)
+              [] e.op = "rand_read" -> FailsRand(e)
               [] e.op = "corpus_read" -> FailsCorpus(e)
               [] e.op = "gc_roundtrip" -> FailsGC(e)
               [] e.op = "gc_write" -> FailsGCWrite(e)
